@@ -110,9 +110,7 @@ def check_c09(case, stats=None):
                 S_ = sets.setdefault(m, {})
                 if stats is not None:
                     stats["reg_" + kind] = stats.get("reg_" + kind, 0) + 1
-                present = (kind, key) in S_
-                if kind == "fd" and (fl & SRC_DUP):
-                    present = False
+                present = (kind, key) in S_         # (a M_SRC_DUP descriptor is keyed by the descriptor it was registered with, like any other)
                 if not valid_params(kind, c.args, fl):
                     if r.ret >= 0:
                         bad("bad-parameters-accepted", "%s with invalid parameters %s returned %d" % (c.op, c.args, r.ret), r)
@@ -144,11 +142,7 @@ def check_c09(case, stats=None):
                         continue
                     lenient = unpollable or (kind == "fd" and c.args[1] in shared_fd) or (kind == "pid") or (kind == "path") or (kind == "task" and st.get(m) == "R")
                     if r.ret == 0:
-                        if kind == "fd" and (fl & SRC_DUP):
-                            dupctr += 1
-                            S_[(kind, ("dup", key, dupctr))] = dict(flags=fl)
-                        else:
-                            S_[(kind, key)] = dict(flags=fl, ud=ud_of(kind, c.args))
+                        S_[(kind, key)] = dict(flags=fl, ud=ud_of(kind, c.args))
                     elif not lenient:
                         bad("new-key-refused", "%s of new key %s with valid parameters on module %d (state %s) returned %d" % (c.op, key, m, st.get(m), r.ret), r)
                 pending.append((m, r, c.op))
@@ -190,7 +184,12 @@ def check_c09(case, stats=None):
             k = _evt_key(r)
             kind = r.kind
             if kind == "fd" and k is not None and k < 0:
+                # event of a M_SRC_DUP source: it reports the library's private duplicate; the user-data token identifies it
                 ud = int(r.fields.get("ud", "0"))
+                for kk, e in list(S_.items()):
+                    if kk[0] == "fd" and (e.get("flags", 0) & SRC_DUP) and (e["flags"] & SRC_ONESHOT) and e.get("ud") == ud:
+                        del S_[kk]
+                        break
                 continue
             if kind == "thresh":
                 ud = int(r.fields.get("ud", "0"))
